@@ -71,7 +71,7 @@ func (prop) Describe() core.Description {
 		RealComponents: []string{"go-geom root package: Polygon, MultiPoint, MultiLineString, MultiPolygon, GeometryCollection (Push, accessors, Coords, Reverse, Swap, Clone, SetSRID, SetLayout) and the part constructors"},
 		StubComponents: []string{"the caller (seeded operation history, including rejected and self-aliasing operations)"},
 		FaultKinds:     []string{"rejected-push", "rejected-variadic-push", "self-alias-push"},
-		Probes:         []string{"probe:polygon(i)-after->=2-empty-polygons", "probe:push-after-leading-empties", "probe:reject-after-nonempty", "probe:reverse-with-empty-part", "probe:variadic-reject-at-j>0", "probe:swap", "probe:clone", "probe:same-stride-wrong-layout", "probe:empty-part", "probe:layout>4", "probe:persistent-polygon-push", "probe:persistent-polygon-pushed-into-receiver", "probe:push-onto-accessor-part", "probe:pushed-part-overwritten-afterwards"},
+		Probes:         []string{"probe:reserve-between-pushes", "probe:one-object-twice-in-a-variadic-push", "probe:polygon(i)-after->=2-empty-polygons", "probe:push-after-leading-empties", "probe:reject-after-nonempty", "probe:reverse-with-empty-part", "probe:variadic-reject-at-j>0", "probe:swap", "probe:clone", "probe:same-stride-wrong-layout", "probe:empty-part", "probe:layout>4", "probe:persistent-polygon-push", "probe:persistent-polygon-pushed-into-receiver", "probe:push-onto-accessor-part", "probe:pushed-part-overwritten-afterwards"},
 	}
 }
 
@@ -136,6 +136,10 @@ func (prop) Decode(raw []byte) (any, error) {
 				return nil, fmt.Errorf("%s on a collection", op.K)
 			}
 		case "pushself", "setsrid":
+		case "reserve":
+			if s.Kind == mgeom.GC || op.I < 0 || op.I > 4000 {
+				return nil, fmt.Errorf("bad reserve")
+			}
 		case "xpush":
 			if s.Kind != mgeom.MPg || op.Part == nil || op.Part.T != mgeom.LR || op.I < 0 || op.I > 1 {
 				return nil, fmt.Errorf("bad xpush")
@@ -191,6 +195,7 @@ func (prop) Generate(r *prng.Rand, phase string) any {
 	cfg.PEmpty = []float64{0, 0.15, 0.4, 0.7}[r.Intn(4)]
 	cfg.MaxDepth = r.Range(0, 2)
 	cfg.Types = mgeom.AllTypes
+	cfg.ShareMembers = true // a collection part may hold one member object twice
 	if cfg.MaxCoords > 5 && cfg.ExactCoords == 0 {
 		cfg.MaxCoords = 5
 	}
@@ -282,6 +287,13 @@ func (prop) Generate(r *prng.Rand, phase string) any {
 					if r.Chance(pWrong) {
 						l = otherLayout()
 					}
+					if j > 0 && r.Chance(0.15) {
+						k := 1 + r.Intn(j)
+						dup := op.Parts[k-1].Clone()
+						dup.Same = k
+						op.Parts = append(op.Parts, dup)
+						continue
+					}
 					op.Parts = append(op.Parts, part(l))
 				}
 			} else {
@@ -313,6 +325,10 @@ func (prop) Generate(r *prng.Rand, phase string) any {
 			if s.Kind == mgeom.GC {
 				op.K = "setsrid"
 				op.S = r.Intn(5000)
+			} else if r.Chance(0.5) {
+				// room for I coordinates is asked for in the middle of a history
+				op.K = "reserve"
+				op.I = []int{0, 1, 2, 5, 9, 33, 200}[r.Intn(7)]
 			} else {
 				op.K = "reverse"
 			}
@@ -594,6 +610,19 @@ func observeAll(res *core.Result, kind string, name string, r *lrecv, m *recv, a
 		if d := r.checkCoords(m); d != "" {
 			ok = fail("coords-differ", "", "%s", d)
 			return
+		}
+		if nc, has := r.t().(interface{ NumCoords() int }); has && kind != mgeom.GC && kind != mgeom.MPt && m.L != 0 {
+			// (without a layout upstream's NumCoords divides by zero, and a
+			// MultiPoint counts its points, empty ones included: both recorded
+			// in DESIGN.md as observations outside this property)
+			want := 0
+			for _, p := range m.Parts {
+				want += p.NumCoords()
+			}
+			if got := nc.NumCoords(); got != want {
+				ok = fail("coords-differ", ":NumCoords", "NumCoords() = %d, the parts pushed hold %d coordinates", got, want)
+				return
+			}
 		}
 		obs, err := mgeom.Observe(r.t())
 		if err != nil {
@@ -882,10 +911,18 @@ func (prop) Execute(scAny any, phase string, log *core.Log) core.Result {
 			bad := -1
 			for j, p := range op.Parts {
 				pm := p.Clone().Norm()
-				g, err := mgeom.Build(pm)
-				if err != nil {
-					res.Fail("build", "build:"+pm.T, "building part %s failed: %v", pm, err)
-					return res
+				var g geom.T
+				if k := p.Same; k > 0 && k <= j {
+					// the same object is handed over a second time in one call
+					pm = pms[k-1].Clone()
+					g = pgs[k-1]
+					res.Count("probe:one-object-twice-in-a-variadic-push", 1)
+				} else {
+					var err error
+					if g, err = mgeom.Build(pm); err != nil {
+						res.Fail("build", "build:"+pm.T, "building part %s failed: %v", pm, err)
+						return res
+					}
 				}
 				pms, pgs = append(pms, pm), append(pgs, g)
 				if mv.Fixed && pm.EffLayout() != mv.L && bad < 0 {
@@ -1069,6 +1106,26 @@ func (prop) Execute(scAny any, phase string, log *core.Log) core.Result {
 			}
 			mod[1-op.R] = cm
 			tainted[1-op.R] = tainted[op.R]
+		case "reserve":
+			// capacity is not content: nothing the receiver reports may change
+			if p := core.Guard(func() {
+				switch s.Kind {
+				case mgeom.Pg:
+					rv.pg.Reserve(op.I)
+				case mgeom.MPt:
+					rv.mpt.Reserve(op.I)
+				case mgeom.MLS:
+					rv.mls.Reserve(op.I)
+				case mgeom.MPg:
+					rv.mpg.Reserve(op.I)
+				}
+			}); p != "" {
+				res.Fail("panic", "panic:"+s.Kind+":"+core.PanicSite(p), "%s: Reserve(%d) panicked: %s", after, op.I, p)
+				return res
+			}
+			res.Count("probe:reserve-between-pushes", 1)
+			res.Steps++
+			log.Addf("%s recv %s reserve %d", after, names[op.R], op.I)
 		case "setsrid":
 			mv.S = op.S
 			switch s.Kind {
